@@ -252,6 +252,16 @@ func Idx(x, i *Term) *Term {
 			}
 		}
 	}
+	// an element of a re-sliced value: x[lo:…][i] = x[lo+i]
+	if x.K == KSub {
+		lo := x.Args[1]
+		if lo.K == KNil {
+			return Idx(x.Args[0], i)
+		}
+		if s := AffAdd(lo, i, 1); s != nil {
+			return Idx(x.Args[0], s)
+		}
+	}
 	return &Term{K: KIdx, Args: []*Term{x, i}}
 }
 func Len(x *Term) *Term {
@@ -285,6 +295,13 @@ func Len(x *Term) *Term {
 			if d := AffAdd(x.Args[2], lo, -1); d != nil {
 				return d
 			}
+		} else if x.Args[1].K != KNil {
+			// len(x[lo:]) = len(x) - lo
+			if d := AffAdd(Len(x.Args[0]), x.Args[1], -1); d != nil {
+				return d
+			}
+		} else {
+			return Len(x.Args[0])
 		}
 	}
 	return &Term{K: KLen, Args: []*Term{x}}
